@@ -367,6 +367,12 @@ def build():
         add_case("integer", "integer/%s required allowEmptyValue" % (f or "-"), dict(base, **{"in": "query", "required": True, "allowEmptyValue": True}))
         add_case("integer", "integer/%s required allowEmptyValue in formData" % (f or "-"), dict(base, **{"in": "formData", "required": True, "allowEmptyValue": True}))
         add_case("integer", "integer/%s optional allowEmptyValue in formData" % (f or "-"), dict(base, **{"in": "formData", "allowEmptyValue": True}))
+    # bounds at zero: "positive" written as an exclusive minimum of 0, for unsigned and signed formats
+    for f in ["uint32", "uint64", "int64"]:
+        zero = {"type": "integer", "format": f, "minimum": 0, "exclusiveMinimum": True, "maximum": 7}
+        add_case("integer", "integer/%s above zero required in query" % f, dict(zero, **{"in": "query", "required": True}))
+        add_case("integer", "integer/%s above zero optional in header" % f, dict(zero, **{"in": "header"}))
+    add_case("integer", "integer/uint32 from zero in path", {"in": "path", "required": True, "type": "integer", "format": "uint32", "minimum": 0, "maximum": 7})
     add_case("integer", "integer enum", {"in": "query", "type": "integer", "format": "int32", "enum": [1, 3]})
     add_case("integer", "integer max excl", {"in": "query", "type": "integer", "format": "int64", "minimum": 2, "maximum": 7, "exclusiveMaximum": True, "required": True})
     # numbers
